@@ -73,6 +73,7 @@ pub fn e1_stats(scn: &E1Scn, d: &Digest, out: &RunOut, stats: &mut Stats) {
     if scn.senders.len() >= 2 {
         stats.hit("probe:concurrent-senders");
     }
+    stats.add("fault:job-task-stalled", out.hist.iter().filter(|r| matches!(r.ev, Ev::Note { what: "task-stalled", .. })).count() as u64);
 }
 
 pub fn e1_nontrivial(scn: &E1Scn, out: &RunOut) -> bool {
@@ -215,6 +216,7 @@ fn shrink_e1_raw(s: &E1Scn) -> Vec<E1Scn> {
                 Op::TryRestartSig { sig, grace } => {
                     [0, 1, grace / 2].iter().filter(|g| **g < *grace).map(|g| Op::TryRestartSig { sig: *sig, grace: *g }).collect()
                 }
+                Op::RunStall { .. } => vec![Op::Run],
                 Op::RunAsync { ms } if *ms > 0 => vec![Op::Run, Op::RunAsync { ms: 0 }, Op::RunAsync { ms: 1 }],
                 Op::RunAsync { .. } => vec![Op::Run],
                 Op::SetHook { async_ms: Some(_) } => vec![Op::SetHook { async_ms: None }],
@@ -296,7 +298,7 @@ impl Check for C04 {
         }
         // then random: even indices fault-free, odd indices fault-injecting
         let faults = idx % 2 == 1;
-        Some(e1::gen_random(rng, &GenCfg { faults, max_ops: if idx % 5 == 0 { 40 } else { 12 }, max_senders: 3, allow_drop: true }))
+        Some(e1::gen_random(rng, &GenCfg { stalls: true, faults, max_ops: if idx % 5 == 0 { 40 } else { 12 }, max_senders: 3, allow_drop: true }))
     }
     fn execute(&self, scn: &E1Scn, policy: Policy, sched_seed: u64) -> RunOut {
         e1::execute(scn, policy, sched_seed)
@@ -377,7 +379,7 @@ fn hook_slack(scn: &E1Scn) -> u64 {
 /// upper bound on the virtual time the job task can spend inside closures, hooks and handlers
 fn busy_bound(scn: &E1Scn) -> u64 {
     let ops = all_ops(scn);
-    let run_async: u64 = ops.iter().map(|o| if let Op::RunAsync { ms } = o.3.op { ms } else { 0 }).sum();
+    let run_async: u64 = ops.iter().map(|o| if let Op::RunAsync { ms } | Op::RunStall { ms } = o.3.op { ms } else { 0 }).sum();
     let capable = ops.iter().filter(|o| o.3.op.spawn_capable()).count() as u64;
     run_async + hook_slack(scn) * (2 * capable + 2)
 }
@@ -699,7 +701,7 @@ impl Check for C06 {
             0 => gen_settled(rng, true),
             1 => gen_graceful_burst(rng, false),
             2 => gen_graceful_burst(rng, true),
-            _ => e1::gen_random(rng, &GenCfg { faults: idx % 8 == 7, max_ops: 12, max_senders: 3, allow_drop: false }),
+            _ => e1::gen_random(rng, &GenCfg { stalls: false, faults: idx % 8 == 7, max_ops: 12, max_senders: 3, allow_drop: false }),
         })
     }
     fn execute(&self, scn: &E1Scn, policy: Policy, sched_seed: u64) -> RunOut {
@@ -854,7 +856,7 @@ pub fn oracle_c07(scn: &E1Scn, d: &Digest, out: &RunOut, stats: &mut Stats) -> V
         // (d) a marker's ticket resolves no later than the marker's completion (and not before it ran)
         if st.op.is_marker() {
             let done = match st.op {
-                Op::Run => d.marker_start.get(&id).and_then(|v| v.first()).map(|m| m.0),
+                Op::Run | Op::RunStall { .. } => d.marker_start.get(&id).and_then(|v| v.first()).map(|m| m.0),
                 _ => d.marker_end.get(&id).and_then(|v| v.first()).map(|m| m.0),
             };
             match done {
@@ -887,7 +889,8 @@ pub fn oracle_c07(scn: &E1Scn, d: &Digest, out: &RunOut, stats: &mut Stats) -> V
             }
         }
         // (e) graceful stop: no later than min(child exit, signal + grace) (+ hook time for the restart forms)
-        if let Some((_, grace)) = st.op.graceful() {
+        let stalled = all_ops(scn).iter().any(|o| matches!(o.3.op, Op::RunStall { .. }));
+        if let (Some((_, grace)), false) = (st.op.graceful(), stalled) {
             if let Some(sigs) = graceful_signal(scn, d, id) {
                 if let [(s, _, ci, true)] = sigs[..] {
                     let c = &d.children[ci];
@@ -940,7 +943,7 @@ pub fn gen_c07(rng: &mut Rng, idx: u64) -> E1Scn {
         1 => gen_graceful_burst(rng, true),
         2 => {
             // error handler installed first, then random single-sender sequence with faults
-            let mut s = e1::gen_random(rng, &GenCfg { faults: true, max_ops: 10, max_senders: 1, allow_drop: false });
+            let mut s = e1::gen_random(rng, &GenCfg { stalls: false, faults: true, max_ops: 10, max_senders: 1, allow_drop: false });
             for st in s.senders[0].iter_mut() {
                 if matches!(st.op, Op::SetErr { .. } | Op::UnsetErr) {
                     st.op = Op::Run;
@@ -951,8 +954,8 @@ pub fn gen_c07(rng: &mut Rng, idx: u64) -> E1Scn {
             s
         }
         3 => gen_settled(rng, false),
-        4 => e1::gen_random(rng, &GenCfg { faults: false, max_ops: 14, max_senders: 3, allow_drop: true }),
-        _ => e1::gen_random(rng, &GenCfg { faults: true, max_ops: 14, max_senders: 3, allow_drop: true }),
+        4 => e1::gen_random(rng, &GenCfg { stalls: true, faults: false, max_ops: 14, max_senders: 3, allow_drop: true }),
+        _ => e1::gen_random(rng, &GenCfg { stalls: true, faults: true, max_ops: 14, max_senders: 3, allow_drop: true }),
     }
 }
 
@@ -1088,7 +1091,7 @@ pub fn oracle_c10(scn: &E1Scn, d: &Digest, stats: &mut Stats) -> Vec<Violation> 
                 }
                 let eid = E1Scn::op_id(si, j);
                 let done_seq = match earlier.op {
-                    Op::Run => d.marker_start.get(&eid).and_then(|v| v.first()).map(|m| m.1),
+                    Op::Run | Op::RunStall { .. } => d.marker_start.get(&eid).and_then(|v| v.first()).map(|m| m.1),
                     _ => d.marker_end.get(&eid).and_then(|v| v.first()).map(|m| m.1),
                 };
                 stats.hit("probe:ticket-implies-earlier-judged");
@@ -1124,7 +1127,7 @@ pub fn oracle_c10(scn: &E1Scn, d: &Digest, stats: &mut Stats) -> Vec<Violation> 
             }
         }
         // ... and the job ends at that very instant unless a control that takes virtual time was in progress
-        let busy = hook_slack(scn) > 0 || all_ops(scn).iter().any(|o| matches!(o.3.op, Op::RunAsync { ms } if ms > 0));
+        let busy = hook_slack(scn) > 0 || all_ops(scn).iter().any(|o| matches!(o.3.op, Op::RunAsync { ms } | Op::RunStall { ms } if ms > 0));
         if !busy && d.children.iter().all(|c| c.faults == 0) {
             match d.task_end {
                 Some((g, _, _)) if g == qt => stats.hit("probe:delete-now-immediate"),
@@ -1233,7 +1236,7 @@ impl Check for C10 {
             0 => gen_hi_over_normal(rng),
             1 | 2 => gen_order(rng),
             3 => gen_graceful_burst(rng, false),
-            _ => e1::gen_random(rng, &GenCfg { faults: false, max_ops: 16, max_senders: 3, allow_drop: false }),
+            _ => e1::gen_random(rng, &GenCfg { stalls: true, faults: false, max_ops: 16, max_senders: 3, allow_drop: false }),
         })
     }
     fn execute(&self, scn: &E1Scn, policy: Policy, sched_seed: u64) -> RunOut {
